@@ -7,9 +7,11 @@ package main
 
 import (
 	"fmt"
+	"go/constant"
 	"go/token"
 	"go/types"
 	"sort"
+	"strings"
 
 	"golang.org/x/tools/go/ssa"
 )
@@ -316,31 +318,193 @@ func callOf(v ssa.Value) (*ssa.Call, int) {
 // guardCall: among the must-facts at `at`, find a fact "result(#idx) of a call to callee is
 // non-nil / nil / true / false" and return the calls. want: "nonnil", "nil", "true", "false".
 func (w *World) guardCalls(at ssa.Instruction, callee *ssa.Function, idx int, want string) []*ssa.Call {
+	return w.guardCallsIn(w.factsAt(at), callee, idx, want, 2)
+}
+
+func factOutcome(f Fact) (v ssa.Value, outcome string) {
+	if x, isNil, ok := nilFact(f); ok {
+		if isNil {
+			return x, "nil"
+		}
+		return x, "nonnil"
+	}
+	if f.Op == "true" {
+		if f.Truth {
+			return f.X, "true"
+		}
+		return f.X, "false"
+	}
+	return nil, ""
+}
+
+func (w *World) guardCallsIn(facts []Fact, callee *ssa.Function, idx int, want string, depth int) []*ssa.Call {
 	var out []*ssa.Call
-	for _, f := range w.factsAt(at) {
-		var v ssa.Value
-		switch want {
-		case "nonnil", "nil":
-			x, isNil, ok := nilFact(f)
-			if !ok || isNil != (want == "nil") {
-				continue
-			}
-			v = x
-		case "true", "false":
-			if f.Op != "true" || f.Truth != (want == "true") {
-				continue
-			}
-			v = f.X
+	for _, f := range facts {
+		v, outcome := factOutcome(f)
+		if v == nil {
+			continue
 		}
 		c, i := callOf(w.resolveLoad(v))
-		if c == nil || i != idx {
+		if c == nil {
 			continue
 		}
 		if c.Call.StaticCallee() == callee {
-			out = append(out, c)
+			if i == idx && outcome == want {
+				out = append(out, c)
+			}
+			continue
+		}
+		// the guard may have been moved into a helper: expand what the helper's outcome implies
+		if h := c.Call.StaticCallee(); h != nil && w.IsMod[h] && depth > 0 && h != callee {
+			out = append(out, w.expandHelper(c, i, outcome, callee, idx, want, depth-1)...)
 		}
 	}
 	return out
+}
+
+// virtVal stands for a value of a helper function expressed in the caller's terms: it only
+// carries a key.
+type virtVal struct {
+	k string
+	t types.Type
+}
+
+func (v *virtVal) Name() string                  { return v.k }
+func (v *virtVal) String() string                { return v.k }
+func (v *virtVal) Type() types.Type              { return v.t }
+func (v *virtVal) Parent() *ssa.Function         { return nil }
+func (v *virtVal) Referrers() *[]ssa.Instruction { return nil }
+func (v *virtVal) Pos() token.Pos                { return token.NoPos }
+
+// expandHelper: hc is a call of module function h whose result hi is known to have outcome
+// hout. Returns synthetic guard calls of `callee` (result idx == want) that hold on every
+// return of h with that outcome, with their arguments translated to the caller.
+func (w *World) expandHelper(hc *ssa.Call, hi int, hout string, callee *ssa.Function, idx int, want string, depth int) []*ssa.Call {
+	h := hc.Call.StaticCallee()
+	ri := hi
+	if ri < 0 {
+		ri = 0
+	}
+	ai := w.absint()
+	type hit struct {
+		c    *ssa.Call
+		args []ssa.Value
+		key  string
+	}
+	var acc map[string]hit
+	first := true
+	for _, ret := range returnsOf(h) {
+		if ri >= len(ret.Results) {
+			continue
+		}
+		rv := w.resolveLoad(ret.Results[ri])
+		match := false
+		var extra []Fact
+		switch hout {
+		case "nil", "nonnil":
+			_, isC := stripIface(rv).(*ssa.Const)
+			switch {
+			case isC:
+				match = isNilConst(stripIface(rv)) == (hout == "nil")
+			case ai.definitelyNonNil(rv):
+				match = hout == "nonnil"
+			default:
+				// unknown nil-ness: this return may produce the outcome; only facts that hold
+				// here anyway count (a forwarded error of an inner call: nil iff that call's is)
+				match = true
+				if ic, ii := callOf(rv); ic != nil && hout == "nil" {
+					_ = ii
+					extra = append(extra, Fact{Atom{"==", rv, ssa.NewConst(nil, rv.Type())}, true})
+				}
+			}
+		case "true", "false":
+			if cst, ok := rv.(*ssa.Const); ok && cst.Value != nil && cst.Value.Kind() == constant.Bool {
+				match = constant.BoolVal(cst.Value) == (hout == "true")
+			} else {
+				match = true
+				extra = append(extra, normCond(rv, hout == "true")...)
+			}
+		}
+		if !match {
+			continue
+		}
+		facts := append(w.factsAt(ret), extra...)
+		set := map[string]hit{}
+		for _, g := range w.guardCallsIn(facts, callee, idx, want, depth) {
+			var args []ssa.Value
+			k := ""
+			for _, a := range g.Call.Args {
+				ta := w.translateToCaller(a, h, hc)
+				args = append(args, ta)
+				k += w.key(ta) + "|"
+			}
+			set[k] = hit{g, args, k}
+		}
+		if first {
+			acc, first = set, false
+		} else {
+			for k := range acc {
+				if _, ok := set[k]; !ok {
+					delete(acc, k)
+				}
+			}
+		}
+	}
+	var out []*ssa.Call
+	var keys []string
+	for k := range acc {
+		keys = append(keys, k)
+	}
+	sort.Strings(keys)
+	for _, k := range keys {
+		hh := acc[k]
+		syn := &ssa.Call{}
+		syn.Call.Value = callee
+		syn.Call.Args = hh.args
+		if w.synthPos == nil {
+			w.synthPos = map[ssa.Instruction]string{}
+		}
+		w.synthPos[syn] = w.instrPos(hh.c) + " (inside helper " + fname(h) + " called at " + w.instrPos(hc) + ")"
+		out = append(out, syn)
+	}
+	return out
+}
+
+// translateToCaller: a value of helper h as seen from the call hc: parameters become the
+// actual arguments; anything else becomes a virtual value whose key has the parameters
+// substituted.
+func (w *World) translateToCaller(v ssa.Value, h *ssa.Function, hc *ssa.Call) ssa.Value {
+	if vv, ok := v.(*virtVal); ok {
+		v = vv
+	}
+	if p, ok := stripIface(v).(*ssa.Parameter); ok && p.Parent() == h {
+		if i := paramIndex(p); i >= 0 && i < len(hc.Call.Args) {
+			return hc.Call.Args[i]
+		}
+	}
+	if _, ok := v.(*ssa.Const); ok {
+		return v
+	}
+	// a call inside the helper (e.g. alloc.AddressFamily()): the same call on translated arguments
+	if c, ok := stripIface(v).(*ssa.Call); ok && c.Block() != nil && c.Call.StaticCallee() != nil {
+		syn := &ssa.Call{}
+		syn.Call.Value = c.Call.StaticCallee()
+		for _, a := range c.Call.Args {
+			syn.Call.Args = append(syn.Call.Args, w.translateToCaller(a, h, hc))
+		}
+		if w.synthPos == nil {
+			w.synthPos = map[ssa.Instruction]string{}
+		}
+		w.synthPos[syn] = w.instrPos(c) + " (inside helper " + fname(h) + ")"
+		return syn
+	}
+	k := w.key(v)
+	for i, p := range h.Params {
+		if i < len(hc.Call.Args) {
+			k = strings.ReplaceAll(k, w.key(p), w.key(hc.Call.Args[i]))
+		}
+	}
+	return &virtVal{k: k, t: v.Type()}
 }
 
 // resolveLoad: when v is a load of a private single-store local (err spilled because a
